@@ -112,8 +112,8 @@ type st =
   | Sd of sd_state
 
 let ls_str with_dir cnt s =
-  Printf.sprintf "pt=%s val=%s der=%s%s step=%s lpt=%s lder=%s lval=%s%s"
-    (v_str s.pt) (q_str s.val0) (v_str s.der)
+  Printf.sprintf "pt=%s val=%s der=%s lstype=%d%s step=%s lpt=%s lder=%s lval=%s%s"
+    (v_str s.pt) (q_str s.val0) (v_str s.der) (int_of_nat s.ls_type)
     (if with_dir then " sdir=" ^ v_str s.sdir else "")
     (q_str s.step_len) (v_str s.last_pt) (v_str s.last_der) (q_str s.last_val)
     (match cnt with Some c -> Printf.sprintf " cnt=%d" c | None -> "")
@@ -151,11 +151,12 @@ let () =
                 f := quad_f a b; g := quad_grad a b;
                 let feas = if kind = "boxquad" then box_feasb_slack box_eps (List.map parse_num ll) (List.map parse_num ul) else (fun _ -> true) in
                 let lsn = nat_of_int (int_of_string ls) in
+                let box = kind = "boxquad" in          (* init(): a constrained objective forces the backtracking search *)
                 (match opt with
-                 | "SDLS" when ls = "2" -> state := LsSd (ls_init !f !g feas sd_init_model lsn x0)
-                 | "CG" when ls = "2" -> state := LsCg (ls_init !f !g feas cg_init_model lsn x0)
-                 | "BFGS" when ls = "2" -> state := LsBfgs (ls_init_o !f !g feas bfgs_init_model false lsn x0)
-                 | ("BFGS" | "LBFGS") when ls = "2" -> state := LsFirst (ls_init !f !g feas sd_init_model lsn x0, 0)
+                 | "SDLS" when ls = "2" || box -> state := LsSd (ls_init_o !f !g feas sd_init_model box lsn x0)
+                 | "CG" when ls = "2" -> state := LsCg (ls_init_o !f !g feas cg_init_model box lsn x0)
+                 | "BFGS" when ls = "2" -> state := LsBfgs (ls_init_o !f !g feas bfgs_init_model box lsn x0)
+                 | ("BFGS" | "LBFGS") when ls = "2" || box -> state := LsFirst (ls_init_o !f !g feas sd_init_model box lsn x0, 0)
                  | "SD" -> (match pl with
                      | [lr; mom] -> state := Sd (sd_init !f !g (parse_num lr) (parse_num mom) x0)
                      | _ -> state := NoModel)
